@@ -72,6 +72,8 @@ func main() {
 		run = runC19(*fTier)
 	case "C04S":
 		run = runC04S(*fTier)
+	case "C03S":
+		run = runC03S(*fTier)
 	default:
 		fmt.Fprintln(os.Stderr, "sysrig: unknown property", *fProp)
 		os.Exit(64)
